@@ -133,18 +133,30 @@ def lean_audit(prop_mod, extra_mods=()):
 
 
 def run_driver(name, requests, timeout=3000):
-    """Pipe JSON request lines to `lake env lean --run Drivers/<name>.lean`; returns the parsed responses."""
+    """Pipe JSON request lines to `lake env lean --run Drivers/<name>.lean`; returns the parsed responses.
+    Drivers are deterministic, so a transient failure (e.g. another check rebuilding a shared module at the same
+    moment) is retried twice before it is reported as an infrastructure error."""
     os.makedirs(OUT, exist_ok=True)
     data = "".join(json.dumps(r) + "\n" for r in requests)
-    try:
-        p = subprocess.run(["lake", "env", "lean", "--run", os.path.join("Drivers", name + ".lean")], cwd=LEAN,
-                           input=data, capture_output=True, text=True, timeout=timeout)
-    except subprocess.TimeoutExpired:
-        raise Infra(f"driver {name} timed out")
-    lines = [l for l in p.stdout.split("\n") if l.strip()]
-    if p.returncode != 0 or len(lines) != len(requests):
-        raise Infra(f"driver {name}: rc={p.returncode}, {len(lines)} responses for {len(requests)} requests; stderr: {p.stderr[-2000:]}")
-    return [json.loads(l) for l in lines]
+    last = ""
+    for attempt in range(3):
+        try:
+            p = subprocess.run(["lake", "env", "lean", "--run", os.path.join("Drivers", name + ".lean")], cwd=LEAN,
+                               input=data, capture_output=True, text=True, timeout=timeout)
+        except subprocess.TimeoutExpired:
+            raise Infra(f"driver {name} timed out")
+        lines = [l for l in p.stdout.split("\n") if l.strip()]
+        if p.returncode == 0 and len(lines) == len(requests):
+            try:
+                return [json.loads(l) for l in lines]
+            except ValueError as e:
+                last = f"unparsable driver output: {e}"
+        else:
+            last = f"rc={p.returncode}, {len(lines)} responses for {len(requests)} requests; stderr: {p.stderr[-1500:]}"
+        time.sleep(2 + 3 * attempt)
+        with _Lock():      # wait for a concurrent build to finish
+            pass
+    raise Infra(f"driver {name}: {last}")
 
 
 # ----------------------------------------------------------------------------- canonical forms
